@@ -187,7 +187,9 @@ func (msg MsgInitiateTokenDeposit) Validate(ac address.Codec) error {
 	}
 
 	// allow zero amount for creating account
-	if !msg.Amount.IsValid() {
+	// the withdrawal leaf format carries the amount as a 64-bit integer; a larger deposit could
+	// never be refunded
+	if !msg.Amount.IsValid() || !msg.Amount.Amount.IsUint64() {
 		return ErrInvalidAmount
 	}
 
@@ -244,7 +246,7 @@ func (msg MsgFinalizeTokenWithdrawal) Validate(ac address.Codec) error {
 		return err
 	}
 
-	if !msg.Amount.IsValid() || msg.Amount.IsZero() {
+	if !msg.Amount.IsValid() || msg.Amount.IsZero() || !msg.Amount.Amount.IsUint64() {
 		return ErrInvalidAmount
 	}
 
